@@ -280,7 +280,7 @@ def lib_results(z, plan):
     if r1.fatal_class() is not None or len(r1.events) != len(lp["steps"]):
         return None
     ev = r1.events
-    res = {"compile_ok": ev[meta["i_parse"]].outcome == "ok", "noise": False}
+    res = {"compile_ok": ev[meta["i_parse"]].outcome == "ok", "noise": False, "noise_chunks": [], "noise_exact": True}
     res["compile_msg"] = ev[meta["i_parse"]].text("msg") or ""
     # which files open
     open_ok = []
@@ -314,6 +314,9 @@ def lib_results(z, plan):
                 break
             if e.get("err"):
                 res["noise"] = True
+                res["noise_chunks"].append(e.text("err").encode("latin-1"))
+        else:
+            res["noise_exact"] = False      # the driver did not see the end of this argument's values
         if failed:
             argvals.append(None)
             arg_fail = True
@@ -360,6 +363,7 @@ def lib_results(z, plan):
         for e in r2.events[first:first + CAP]:
             if e.get("err"):
                 res["noise"] = True
+                res["noise_chunks"].append(e.text("err").encode("latin-1"))
             if e.outcome == "stack":
                 results.append(parse_stack(e.text("r")))
             elif e.outcome == "fail":
@@ -592,10 +596,15 @@ def model(plan, lib):
     # file): then that execution counts as failed.  The model cannot know, so
     # it steps back: any status the two readings allow, stdout not matched.
     unmodelled = any(show(v, True) is None for c in combos for st in c["results"] for v in st)
+    ex.base_status = set(ex.status)
+    if not quiet and lib.get("noise_chunks") is not None:
+        # what libzwerg writes to stderr by itself (division by zero, ...) is
+        # not the driver's to silence: it is there with or without -s
+        ex.lib_noise = list(lib["noise_chunks"])
+        ex.lib_noise_exact = nomsg and lib.get("noise_exact", False) and not unmodelled
     if unmodelled and not count:
         if not quiet:
             ex.status = set(ex.status) | {2}
-        ex.stdout = None if not quiet else ex.stdout
         ex.unmodelled = True
     if not ex.stderr_nonempty and not lib["noise"] and not getattr(ex, "unmodelled", False):
         ex.stderr_empty = True
@@ -621,7 +630,8 @@ def judge(plan, lib, resp):
     if st not in ex.status:
         return ("cli:exit-status", "%s\nexit status %d, expected %s\nstdout=%r\nstderr=%r"
                 % (argv, st, sorted(ex.status), out[:400], err[:400]))
-    if ex.stdout is not None and not ex.stdout.fullmatch(out):
+    dumper_failed = getattr(ex, "unmodelled", False) and st == 2
+    if ex.stdout is not None and not dumper_failed and not ex.stdout.fullmatch(out):
         k = "cli:stdout-under-q" if ex.stdout.pattern == b"" and any(
             o in ("-q", "--quiet", "--silent") for o in plan["cli"]["opts"]) else "cli:stdout"
         return (k, "%s\nstdout %r\ndoes not match %r\nstderr=%r" % (argv, out[:600], ex.stdout.pattern[:600], err[:300]))
@@ -632,6 +642,16 @@ def judge(plan, lib, resp):
         return ("cli:stderr-missing", "%s\nexpected a diagnostic on stderr, got none (status %d)" % (argv, st))
     if ex.stderr_empty and err:
         return ("cli:stderr-unexpected", "%s\nexpected nothing on stderr, got %r" % (argv, err[:400]))
+    noise = getattr(ex, "lib_noise", None)
+    if noise:
+        at = 0
+        for ch in noise:
+            k = err.find(ch, at)
+            if k < 0:
+                return ("cli:library-message-lost", "%s\nlibzwerg's own message %r is not on stderr (or not in order): %r" % (argv, ch[:200], err[:400]))
+            at = k + len(ch)
+    if noise is not None and getattr(ex, "lib_noise_exact", False) and err != b"".join(noise):
+        return ("cli:stderr-under-s", "%s\nunder -s stderr should hold libzwerg's own messages only: %r, got %r" % (argv, b"".join(noise)[:300], err[:400]))
     for m in ex.stderr_mentions:
         if m not in err:
             return ("cli:stderr-file-not-named", "%s\nstderr %r does not mention %r" % (argv, err[:400], m))
@@ -717,10 +737,14 @@ def simulate(z, plan, clause_only=False):
         if cl is not None:
             v = O.Violation(orc, det, plan)
             v.klass_str = klass
-            if orc in E.CRASH or orc in ("contract",):
+            if orc in E.CRASH or orc in ("contract",) or (clause_only == "memory" and orc in ("leak", "fd-leak", "fd-discipline")):
                 out.violation = v
             else:
                 out.other = v
+    if clause_only == "memory":
+        st.probe("cli_run")
+        out.fp = E.fingerprint(resp, out.violation.klass_str if out.violation else "")
+        return out
     lib = lib_results(z, plan)
     out.baseline_runs = 2
     if lib is None:
